@@ -57,6 +57,25 @@ def main():
         if rc != 0:
             meta["why"] = o[-500:]
             return finish(meta, name, src)
+        if "--own-only" in sys.argv:
+            # final re-verification with the final checks: the change was confirmed when its round was evaluated;
+            # only the check of the property it breaks is run again
+            env = dict(ENV, VERIF_REPO=wt, VERIF_OUT=out)
+            own = name[:3]
+            t0 = time.time()
+            r = subprocess.run([os.path.join(VERIF, "check"), own, "quick"], env=env, stdout=subprocess.PIPE, stderr=subprocess.STDOUT, text=True)
+            line = [l for l in r.stdout.splitlines() if l.startswith(("VIOLATION", "OK "))]
+            first = ""
+            rp = os.path.join(out, "replays", f"{own}-quick-1.txt")
+            if r.returncode == 1 and os.path.exists(rp):
+                body = [l for l in open(rp) if not l.startswith("#")]
+                hdr = [l.strip() for l in open(rp) if l.startswith("#")][2:5]
+                first = {"classes": hdr, "example": body[0].strip()[:400] if body else ""}
+            meta["own_final"] = {"check": own, "rc": r.returncode, "line": line[-1][:200] if line else r.stdout[-300:], "wall_s": round(time.time() - t0, 1), "first": first}
+            os.makedirs("/tmp/mut/results-own", exist_ok=True)
+            json.dump(meta, open(f"/tmp/mut/results-own/{name}.json", "w"), indent=1)
+            print(name, "own-final", meta["own_final"]["line"][:120])
+            return
         ok1, r1 = tests_pass(wt, [])
         ok2, r2 = tests_pass(wt, ["--features", "arbitrary-precision"])
         meta["suite_with_change"] = {"default": r1, "arbitrary-precision": r2, "pass": bool(ok1 and ok2)}
